@@ -129,14 +129,16 @@ def c07(d, run):
 # ----------------------------------------------------------------------------- cache-level checks
 
 ALL_INV = ["UsedIsSum", "Bounded", "Agree", "Conservation", "NeverTwice", "NothingLost", "ResidentOwned",
-           "IndexExact", "NoOrphan", "MetricsLaws"]
+           "IndexExact", "NoOrphan", "MetricsLaws", "MetricsCounts", "NoLoss", "CondNeverCreates", "ClearEmpties", "ChargeFormula"]
 ALL_CMP = ["store", "em", "costs", "chan", "life", "met", "cbs", "out", "vttl", "pop"]
 
 MC_NAMES = {
     "seq": "MC_Cache_seq (1 client x 4 calls; colliding keys; veto validator; internal cost 1; insert/insert_if_present/remove/get/clear/set_max)",
-    "conc": "MC_Cache_conc (2 clients x 2 calls; buffer 1..2; insert/remove/get/wait/clear; every interleaving with the fine-grained processor)",
-    "life": "MC_Cache_life (2 clients x 3 calls; insert/wait/clear/close/get/remove; stop rendezvous; every interleaving)",
+    "conc": "MC_Cache_conc (2 clients x 2 calls; buffer 1..2; cost 1, max_cost 1; insert/remove/wait/clear; every interleaving with the fine-grained processor)",
+    "life": "MC_Cache_life (2 clients x 2 calls; insert/wait/clear/close/get/remove; stop rendezvous; every interleaving)",
     "ttl": "MC_Cache_ttl (1 client x 3 calls; ttl 0 / 0.75 s; clock steps of 0.5 s up to 2.5 s; ticks at any time)",
+    "conc_full": "MC_Cache_conc_full (2 clients x 2 calls; costs 1..2, max_cost 2; insert/remove/get/wait/clear)",
+    "life_full": "MC_Cache_life_full (2 clients x 3 calls; insert/wait/clear/close/get/remove)",
     "async": "MC_Cache_async (2 clients x 2 calls; async flavour: capacity-1 stop slots, awaiting remove)",
 }
 
@@ -155,8 +157,10 @@ def _trace_cfg(run, name, cmp, invs):
 def cache_stage(d, run, what, mcs, profiles, cmp, invs, mc_props=None):
     """mcs: names of MC_Cache_<name>.cfg to run; profiles: [(profile, flavor, n_quick, n_thorough)]"""
     wd = run.workdir
+    if _thorough(run):
+        mcs = [m + "_full" if os.path.exists(os.path.join(d.SPEC, "MC_Cache_%s_full.cfg" % m)) else m for m in mcs]
     for name in mcs:
-        r = d.tlc_mc("MC_Cache.tla", "MC_Cache_%s.cfg" % name, wd, workers=12, timeout=2400, heap="12g")
+        r = d.tlc_mc("MC_Cache.tla", "MC_Cache_%s.cfg" % name, wd, workers=12, timeout=3000, heap="12g")
         run.add_mc(r, MC_NAMES.get(name, name))
         bad = [v for v in r["violated"]]
         if bad:
@@ -273,7 +277,7 @@ def c17(d, run):
     h = cache_stage(d, run, "real cache deviates from Cache.tla (metrics)",
                     ["seq", "conc"],
                     [("seq", "sync", 25, 150), ("conc", "sync", 25, 200), ("seq_internal", "sync", 10, 60), ("ttl", "sync", 10, 60)],
-                    ["met", "costs", "chan", "store"], ["MetricsLaws", "UsedIsSum"])
+                    ["met", "costs", "chan", "store"], ["MetricsLaws", "MetricsCounts", "UsedIsSum"])
     _need(d, h, ["Get", "PNewAdd", "PUpd", "PVictim", "ClrMetrics"])
     run.nontrivial = h.get("End", 0) + h.get("PWait", 0)
     run.rule = ("every counter is compared after every recorded critical section; non-trivial = quiescent points at which TLC "
@@ -310,6 +314,20 @@ def c03(d, run):
     run.assumptions = BASE_ASSUME + ["time is the hooks' virtual clock (H1); real-time effects of SystemTime are out of scope"]
 
 
+def c04(d, run):
+    h = cache_stage(d, run, "real cache deviates from Cache.tla (below capacity the cache is an exact map)",
+                    ["seq", "ttl"],
+                    [("below", "sync", 30, 250), ("below_ttl", "sync", 30, 250), ("below_ttl", "async", 10, 80)],
+                    ["store", "em", "costs", "out", "cbs", "chan"], ["NoLoss", "IndexExact", "Agree", "Conservation"])
+    _need(d, h, ["InsBegin", "Get", "RemStore", "ClrSend", "PTick", "Advance", "PCleanupKey"])
+    run.nontrivial = h.get("InsBegin", 0) + h.get("Get", 0)
+    run.rule = ("sequential histories (processor drained between calls) whose total demanded cost fits in max_cost: inserts with and "
+                "without TTL, re-inserts switching between them, removes, clears, clock advances, ticks at every interval; non-trivial = "
+                "inserts and lookups; TLC evaluates NoLoss (nothing refused, evicted or lost; resident set = demanded set) on every "
+                "quiescent recorded state and compares every lookup with the specification")
+    run.assumptions = BASE_ASSUME
+
+
 def c05(d, run):
     h = cache_stage(d, run, "real cache deviates from Cache.tla (expiry index and cleanup)",
                     ["ttl"],
@@ -326,7 +344,7 @@ def c09(d, run):
     h = cache_stage(d, run, "real cache deviates from Cache.tla (conditional writes)",
                     ["seq"],
                     [("seq_veto", "sync", 30, 200), ("seq_veto5", "sync", 15, 100), ("cond", "sync", 20, 150), ("seq_veto", "async", 10, 60)],
-                    ["store", "em", "out", "chan", "cbs"], ["ResidentOwned", "IndexExact"])
+                    ["store", "em", "out", "chan", "cbs"], ["ResidentOwned", "IndexExact", "CondNeverCreates"])
     _need(d, h, ["InsBegin", "PNewStore"])
     run.nontrivial = h.get("InsBegin", 0)
     run.rule = ("non-trivial = insert / insert_if_present calls under vetoing validators (asymmetric and symmetric predicates over "
@@ -338,7 +356,7 @@ def c11(d, run):
     h = cache_stage(d, run, "real cache deviates from Cache.tla (clear)",
                     ["conc", "ttl", "seq"],
                     [("conc_clear", "sync", 40, 300), ("ttl_clear", "sync", 20, 150), ("seq", "sync", 10, 80), ("conc_clear", "async", 10, 80)],
-                    ALL_CMP, ["IndexExact", "Agree", "UsedIsSum", "MetricsLaws", "ResidentOwned"])
+                    ALL_CMP, ["IndexExact", "Agree", "UsedIsSum", "MetricsLaws", "ResidentOwned", "ClearEmpties"])
     _need(d, h, ["ClrSend", "ClrStore", "ClrMetrics", "PClrTake", "PCleanItem"])
     run.nontrivial = h.get("ClrSend", 0)
     run.rule = ("non-trivial = clear() calls with 0..buffer-size items pending, the processor and a second client interleaved at every "
@@ -351,7 +369,7 @@ def c16(d, run):
     h = cache_stage(d, run, "real cache deviates from Cache.tla (charged cost formula)",
                     ["seq"],
                     [("seq_internal", "sync", 25, 200), ("seq", "sync", 15, 100), ("seq_coster0", "sync", 10, 60), ("seq_internal", "async", 10, 60)],
-                    ["costs", "cbs", "chan", "store"], ["UsedIsSum", "Agree"])
+                    ["costs", "cbs", "chan", "store"], ["UsedIsSum", "Agree", "ChargeFormula"])
     _need(d, h, ["PNewAdd", "PUpd", "PVictim"])
     run.nontrivial = h.get("PNewAdd", 0) + h.get("PUpd", 0)
     run.rule = ("non-trivial = policy applications of New / Update items: the charge must be explicit cost (or Coster value when 0) + "
@@ -392,6 +410,7 @@ def _known(d, run, tag):
 
 CHECKS = {
     "C01": c01,
+    "C04": c04,
     "C03": c03,
     "C05": c05,
     "C09": c09,
